@@ -19,9 +19,9 @@ def _obj(src, flags):
         os.replace(out + '.tmp', out)
     return out
 
-def build(name, sources, sanitize=True):
+def build(name, sources, sanitize=True, flags=()):
     srcs = [s if os.path.isabs(s) else os.path.join(REPO, 'src', s) for s in sources]
-    flags = FLAGS + (SAN if sanitize else [])
+    flags = FLAGS + list(flags) + (SAN if sanitize else [])
     with ThreadPoolExecutor(16) as ex: objs = list(ex.map(lambda s: _obj(s, flags), srcs))
     key = hashlib.sha1(' '.join(objs).encode()).hexdigest()[:16]
     exe = os.path.join(NDIR, '%s.%s' % (name, key))
@@ -31,8 +31,8 @@ def build(name, sources, sanitize=True):
         os.replace(exe + '.tmp', exe)
     return exe
 
-def run(exe, args, timeout=20, stdin=None):
-    env = dict(os.environ, ASAN_OPTIONS='detect_leaks=0:abort_on_error=0:exitcode=77', UBSAN_OPTIONS='print_stacktrace=0:halt_on_error=1:exitcode=78')
+def run(exe, args, timeout=20, stdin=None, mem_mb=8192):
+    env = dict(os.environ, ASAN_OPTIONS='detect_leaks=0:abort_on_error=0:exitcode=77:hard_rss_limit_mb=%d' % mem_mb, UBSAN_OPTIONS='print_stacktrace=0:halt_on_error=1:exitcode=78')
     try:
         r = subprocess.run([exe] + list(args), input=stdin, stdout=subprocess.PIPE, stderr=subprocess.PIPE, timeout=timeout, env=env)
         return r.returncode, r.stdout.decode('latin1'), r.stderr.decode('latin1')
